@@ -657,6 +657,14 @@ class Inliner:
             # `v = Record(args)`: the statements of Record.__init__ with self := v
             km, kn = self._cur_vars[st.targets[0].id]
             h = self.helpers.get((km, kn, '__init__'))
+            nt = getattr(self, '_record_fields', {}).get((km, kn)) or []
+            if nt and len(st.value.args) == 1 and isinstance(st.value.args[0], ast.Starred) and not st.value.keywords:
+                # `v = Record(*seq)`: the fields are the elements of seq
+                tg = ast.Tuple(elts=[ast.Attribute(value=ast.Name(id=st.targets[0].id, ctx=ast.Load()), attr=f_, ctx=ast.Store()) for f_, _d in nt], ctx=ast.Store())
+                new = ast.Assign(targets=[tg], value=st.value.args[0].value)
+                ast.copy_location(new, st)
+                ast.fix_missing_locations(new)
+                return [new]
             if h is not None and h.ok:
                 exp = self._expand(h, st.value, ast.copy_location(ast.Name(id=st.targets[0].id, ctx=ast.Load()), st), 'expr')
                 if exp is not None:
@@ -912,14 +920,22 @@ class Inliner:
             for st in m.tree.body:
                 if not isinstance(st, ast.ClassDef) or st.decorator_list or st.keywords:
                     continue
-                if any(not (isinstance(b, ast.Name) and b.id == 'object') for b in st.bases):
-                    continue
                 if any(p_.startswith(f'{mname}:{st.name}.') for p_ in self.pinned):
+                    continue
+                nt_fields = self._namedtuple_fields(st)
+                if nt_fields is not None:
+                    rec = self._namedtuple_record(mname, st, nt_fields)
+                    if rec is not None:
+                        out[(mname, st.name)] = rec
+                    continue
+                if any(not (isinstance(b, ast.Name) and b.id == 'object') for b in st.bases):
                     continue
                 ok = True
                 for s2 in st.body:
                     if isinstance(s2, ast.FunctionDef):
                         if s2.name.startswith('__') and s2.name != '__init__':
+                            ok = False
+                        if s2.decorator_list:
                             ok = False
                     elif isinstance(s2, ast.Expr) and isinstance(s2.value, ast.Constant):
                         pass
@@ -943,16 +959,69 @@ class Inliner:
                     else:
                         ok = False
                 if ok and fields:
-                    out[(mname, st.name)] = (st, fields)
+                    out[(mname, st.name)] = (st, fields, init, {})
         return out
+
+    @staticmethod
+    def _namedtuple_fields(st):
+        """field names (with defaults) of a NamedTuple class, else None"""
+        if len(st.bases) != 1:
+            return None
+        b = st.bases[0]
+        if ast.unparse(b) in ('NamedTuple', 'typing.NamedTuple'):
+            fields = []
+            for s2 in st.body:
+                if isinstance(s2, ast.AnnAssign) and isinstance(s2.target, ast.Name):
+                    fields.append((s2.target.id, s2.value))
+            return fields or None
+        if isinstance(b, ast.Call) and ast.unparse(b.func) in ('namedtuple', 'collections.namedtuple') and len(b.args) == 2 and not b.keywords:
+            a = b.args[1]
+            if isinstance(a, ast.Constant) and isinstance(a.value, str):
+                return [(x, None) for x in a.value.replace(',', ' ').split()] or None
+            if isinstance(a, (ast.List, ast.Tuple)) and all(isinstance(e, ast.Constant) and isinstance(e.value, str) for e in a.elts):
+                return [(e.value, None) for e in a.elts] or None
+        return None
+
+    def _namedtuple_record(self, mname, st, nt_fields):
+        """(class node, field names, synthesised __init__, {property name: expression}) for an immutable record class whose methods are plain methods
+        and single-expression properties"""
+        props = {}
+        for s2 in st.body:
+            if isinstance(s2, ast.FunctionDef):
+                if s2.name.startswith('__'):
+                    return None
+                if s2.decorator_list:
+                    body = [x for x in s2.body if not (isinstance(x, ast.Expr) and isinstance(x.value, ast.Constant))]
+                    if len(s2.decorator_list) == 1 and ast.unparse(s2.decorator_list[0]) == 'property' and len(body) == 1 and isinstance(body[0], ast.Return) \
+                            and body[0].value is not None and len(s2.args.args) == 1:
+                        props[s2.name] = (s2.args.args[0].arg, body[0].value)
+                    else:
+                        return None
+            elif isinstance(s2, (ast.AnnAssign, ast.Pass)) or (isinstance(s2, ast.Expr) and isinstance(s2.value, ast.Constant)):
+                pass
+            elif isinstance(s2, ast.Assign) and all(isinstance(t, ast.Name) and t.id == '__slots__' for t in s2.targets):
+                pass
+            else:
+                return None
+        names = [f for f, _ in nt_fields]
+        args = ast.arguments(posonlyargs=[], args=[ast.arg(arg='self')] + [ast.arg(arg=f) for f in names], kwonlyargs=[], kw_defaults=[],
+                             defaults=[copy.deepcopy(d) for _, d in nt_fields if d is not None] if all(d is not None for _, d in nt_fields[len([1 for _, d in nt_fields if d is None]):]) else [])
+        body = [ast.Assign(targets=[ast.Attribute(value=ast.Name(id='self', ctx=ast.Load()), attr=f, ctx=ast.Store())], value=ast.Name(id=f, ctx=ast.Load())) for f in names]
+        init = ast.FunctionDef(name='__init__', args=args, body=body, decorator_list=[], returns=None, type_comment=None, type_params=[])
+        ast.copy_location(init, st)
+        for n in ast.walk(init):
+            if isinstance(n, (ast.expr, ast.stmt)) and not hasattr(n, 'lineno'):
+                ast.copy_location(n, st)
+        ast.fix_missing_locations(init)
+        return (st, set(names), init, props)
 
     def _find_records(self):
         classes = self._new_record_classes()
         if not classes:
             return
-        for (mname, kname), (cnode, fields) in classes.items():
-            init = next(s2 for s2 in cnode.body if isinstance(s2, ast.FunctionDef) and s2.name == '__init__')
+        for (mname, kname), (cnode, fields, init, props) in classes.items():
             self.helpers[(mname, kname, '__init__')] = _Helper(mname, f'{kname}.__init__', init, kname)
+        self._record_fields = {k: list(self._namedtuple_fields(v[0]) or []) for k, v in classes.items()}
         for mname, m in self.modules.items():
             fns = []
             for st in m.tree.body:
@@ -980,8 +1049,8 @@ class Inliner:
                         ctor[n.targets[0].id] = n.value.func.id
                 good = {}
                 for v, kname in ctor.items():
-                    cnode, fields = classes[(mname, kname)]
-                    methods = {s2.name for s2 in cnode.body if isinstance(s2, ast.FunctionDef) and not s2.name.startswith('__')}
+                    cnode, fields, _init, props = classes[(mname, kname)]
+                    methods = {s2.name for s2 in cnode.body if isinstance(s2, ast.FunctionDef) and not s2.name.startswith('__') and not s2.decorator_list}
                     ok = True
                     nested = [d for d in ast.walk(fn) if d is not fn and isinstance(d, DEFS + (ast.Lambda,))]
                     for n in ast.walk(fn):
@@ -994,12 +1063,29 @@ class Inliner:
                             is_call = isinstance(gp, ast.Call) and gp.func is par
                             if is_call and par.attr not in methods:
                                 ok = False
-                            if not is_call and par.attr not in fields:
+                            if not is_call and par.attr not in fields and par.attr not in props:
+                                ok = False
+                            if not is_call and not isinstance(par.ctx, ast.Load) and par.attr in props:
                                 ok = False
                             if any(n in ast.walk(d) for d in nested):
                                 ok = False
                     if ok:
                         good[v] = (mname, kname)
+                        if props:
+                            # a property read is its expression with self := v
+                            class PT(ast.NodeTransformer):
+                                def visit_Attribute(self_, a):
+                                    self_.generic_visit(a)
+                                    if isinstance(a.value, ast.Name) and a.value.id == v and a.attr in props and isinstance(a.ctx, ast.Load):
+                                        sname, expr = props[a.attr]
+                                        e2 = copy.deepcopy(expr)
+                                        for x in ast.walk(e2):
+                                            if isinstance(x, ast.Name) and x.id == sname:
+                                                x.id = v
+                                        return ast.copy_location(e2, a)
+                                    return a
+                            for _ in range(2):       # a property may use another one
+                                PT().visit(fn)
                 if good:
                     self.records[id(fn)] = good
                     self._rec_funcs[id(fn)] = fn
